@@ -76,6 +76,7 @@ enum Q {
     Params(String, String, String),
     Text(String),
     Sig(String),
+    Typed(pgverif::api::TraceAst),
 }
 
 fn answer(r: &dyn Retracer, q: &Q) -> u64 {
@@ -86,6 +87,7 @@ fn answer(r: &dyn Retracer, q: &Q) -> u64 {
         Q::Params(c, m, p) => fnv64(format!("{:?}", r.frame_params(c, m, p)).as_bytes()),
         Q::Text(t) => fnv64(format!("{:?}", r.text(t)).as_bytes()),
         Q::Sig(s) => fnv64(format!("{:?}", r.sig(s)).as_bytes()),
+        Q::Typed(t) => fnv64(format!("{:?}", r.typed(t)).as_bytes()),
     }
 }
 
@@ -97,6 +99,7 @@ fn nonempty(r: &dyn Retracer, q: &Q) -> bool {
         Q::Params(c, m, p) => !r.frame_params(c, m, p).is_empty(),
         Q::Text(_) => true,
         Q::Sig(s) => r.sig(s).is_some(),
+        Q::Typed(_) => true,
     }
 }
 
@@ -123,6 +126,14 @@ fn queries(case: &MapCase) -> Vec<Q> {
     let extra = derive_extra(&u, case.key, 24, 0, 160);
     qs.extend(extra.texts.into_iter().map(Q::Text));
     qs.extend(extra.sigs.into_iter().map(Q::Sig));
+    // deep cause chains through the typed API (per-call recursion state must not be shared between threads)
+    let pool = name_pool_for(&case.file, &u);
+    for t in pgverif::engine::sample_n(&pgverif::gen::trace::deep_trace(&pool), case.key ^ 0x20, 2) {
+        qs.push(Q::Typed(t));
+    }
+    for t in pgverif::engine::sample_n(&pgverif::gen::trace::trace(&pool, 5, 3), case.key ^ 0x21, 6) {
+        qs.push(Q::Typed(t));
+    }
     for i in 0..40 {
         qs.push(Q::Class(format!("zz.unknown.C{i}")));
         qs.push(Q::Sig(format!("(I[Lzz/U{i};J)La/a;")));
@@ -139,8 +150,44 @@ fn xorshift(x: &mut u64) -> u64 {
 
 fn check_case(case: &MapCase, st: &mut Stats) -> Check {
     let bytes = case.bytes();
-    let buf = write_cache(&bytes)?;
     let qs = queries(case);
+    if st.want_sample() && case.file.n_methods() >= 3 {
+        st.sample(|| json!({"mapping": pgverif::engine::show_bytes(&bytes), "queries": qs.len(), "thread_counts": [2, 3, 4, 8, 16], "rounds": 3}));
+    }
+    stress(&bytes, &qs, case.key, case.hash(), st)
+}
+
+/// large structured mappings (fast paths that only exist above a size threshold) under the same stress
+fn check_scale(c: &pgverif::props::scale::ScaleCase, st: &mut Stats) -> Check {
+    let (file, u) = pgverif::props::scale::build(c.kind, c.n);
+    let bytes = file.render(&pgverif::gen::mapping::Render::default());
+    let mut qs = Vec::new();
+    for cl in &u.known_classes {
+        qs.push(Q::Class(cl.clone()));
+        for m in &u.known_methods {
+            qs.push(Q::Method(cl.clone(), m.clone()));
+            for l in u.lines.iter().filter(|l| **l < 100_000) {
+                qs.push(Q::Line(cl.clone(), m.clone(), *l));
+            }
+            for p in u.params.iter().take(12) {
+                qs.push(Q::Params(cl.clone(), m.clone(), p.clone()));
+            }
+        }
+    }
+    // every line of an overlapping-range method: neighbouring lines match different subsets of the entries
+    if c.kind == pgverif::props::scale::Kind::ManyOverlap {
+        for l in 0..(c.n as u64 + 70) {
+            qs.push(Q::Line("f".into(), "v".into(), l));
+        }
+    }
+    st.class(&format!("scale mapping under stress: {:?}", c.kind));
+    stress(&bytes, &qs, c.n as u64, fnv64(format!("{:?}{}", c.kind, c.n).as_bytes()), st)
+}
+
+fn stress(bytes: &[u8], qs: &[Q], key: u64, case_hash: u64, st: &mut Stats) -> Check {
+    let bytes = bytes.to_vec();
+    let qs: Vec<Q> = qs.to_vec();
+    let buf = write_cache(&bytes)?;
     if qs.is_empty() {
         return Ok(());
     }
@@ -164,7 +211,7 @@ fn check_case(case: &MapCase, st: &mut Stats) -> Check {
                         let qs = &qs;
                         let alone = &alone;
                         let barrier = &barrier;
-                        let key = case.key;
+                        let key = key;
                         sc.spawn(move || {
                             let mut seed = fnv_mix(key, &[t as u8, threads as u8]) | 1;
                             // round 0: every thread asks everything (cold start, maximal overlap); later rounds: every thread
@@ -204,7 +251,7 @@ fn check_case(case: &MapCase, st: &mut Stats) -> Check {
             });
             st.evaluations += (qs.len() * (threads + rounds - 1)) as u64;
             if n_nonempty >= 2 {
-                st.nontrivial(fnv_mix(case.hash(), &[threads as u8, name.len() as u8]));
+                st.nontrivial(fnv_mix(case_hash, &[threads as u8, name.len() as u8]));
             }
             st.class(&format!("{threads} threads"));
             if let Some(Some((qi, _))) = bad.iter().find(|b| b.is_some()) {
@@ -214,9 +261,6 @@ fn check_case(case: &MapCase, st: &mut Stats) -> Check {
                 return Err(Fail::new("concurrent-answer-differs", format!("{name}: with {threads} threads query {:?} returned a different answer than when issued alone", qs[*qi])).with(json!({"impl": name, "threads": threads})));
             }
         }
-    }
-    if st.want_sample() && case.file.n_methods() >= 3 {
-        st.sample(|| json!({"mapping": pgverif::engine::show_bytes(&bytes), "queries": qs.len(), "thread_counts": [2, 3, 4, 8, 16], "rounds": 3}));
     }
     Ok(())
 }
@@ -261,6 +305,23 @@ fn main() {
     rep.stats.class_n("static Send+Sync assertions compiled", n_static as u64);
     rep.stats.exhaustive.push("the listed type set (compile-time)".into());
     let cfg = GenCfg { plain_sourcefile_headers: false, max_blocks: 4, max_items: 8, long: 0, overloads: true, ..GenCfg::default() };
-    rep.run_stage("stress", move || map_case(&cfg), ctx.cases(500, 24_000), check_case);
+    rep.run_stage("stress", move || map_case(&cfg), ctx.cases(300, 12_000), check_case);
+    let mut scale = Vec::new();
+    for (kind, n) in [
+        (pgverif::props::scale::Kind::ManyOverlap, 513usize),
+        (pgverif::props::scale::Kind::ManyOverlap, 4097),
+        (pgverif::props::scale::Kind::ManyEntries, 4097),
+        (pgverif::props::scale::Kind::ManyMatching, 257),
+        (pgverif::props::scale::Kind::ManyClasses, 4097),
+        (pgverif::props::scale::Kind::ManyMethods, 4097),
+        (pgverif::props::scale::Kind::ManyFiles, 257),
+    ] {
+        scale.push(pgverif::props::scale::ScaleCase { kind, n, prop: "C20".into() });
+    }
+    let ctx1 = Ctx { threads: 1, ..ctx.clone() };
+    let mut rep1 = Report::new("C20", "exploration", &ctx1);
+    rep1.run_enum("scale", &scale, check_scale);
+    rep.stats.merge(std::mem::take(&mut rep1.stats));
+    rep.violations.append(&mut rep1.violations);
     std::process::exit(rep.finish());
 }
